@@ -177,7 +177,7 @@ def gen_cases(rng, tier, budget_s):
     depth = 2 if quick else 3
     limit = 4 if quick else 6
     ncand = 5 if quick else 7
-    n_h = 900 if quick else 6000
+    n_h = 900 if quick else 15000
     cases, labels = [], []
     t0 = time.time()
     undefined = 0
@@ -190,7 +190,9 @@ def gen_cases(rng, tier, budget_s):
         hier, label = G.gen_hierarchy(rng, d)
         why = G.well_formed(hier)
         if why is not None:
-            raise AssertionError("generator left the grammar: " + why + "\n" + G.hier_py(hier))
+            # a generator slip is not a finding about the library: count it and go on
+            OUTSIDE.append(why)
+            continue
         try:
             impl = Impl(hier)
             table = impl.table()
@@ -216,6 +218,7 @@ def gen_cases(rng, tier, budget_s):
 
 
 SCOPE = {}
+OUTSIDE = []
 
 
 def private_eval(prelude, check_fn, case_terms, tag, case_type, shard):
@@ -456,7 +459,7 @@ def main(tier, replay=None):
             c = observe(r["hier"], r["cls"], [(p, kw) for p, kw in r["calls"]])
             if c is not None:
                 corpus.append(c)
-    cases, labels, undefined = gen_cases(chk.rng, tier, 60 if tier == "quick" else 300)
+    cases, labels, undefined = gen_cases(chk.rng, tier, 60 if tier == "quick" else 420)
     cases = corpus + cases
     labels = ["corpus"] * len(corpus) + labels
     t_gen = time.time() - t0
@@ -515,6 +518,7 @@ def main(tier, replay=None):
     extra = {
         "correspondence": {"hierarchies": len(cases), "constructor_calls": ncalls, "disagreements": len(bad),
                            "undefinable_hierarchies_skipped": undefined,
+                           "generated_outside_grammar_skipped": len(OUTSIDE),
                            "shape_histogram": shape_hist, "outcome_histogram": err_hist,
                            "feature_histogram": feat_hist, "keywords_per_call": kw_hist,
                            "declaration_forms": forms,
